@@ -609,7 +609,306 @@ def g_lifecycle(rng, n, ctx):
     return out
 
 
+# ---- BEGIN pl15: nxslib/thread.py (ThreadCommon) with the event / thread / callback stubs of the prelude ----
+def g_worker(rng, n, ctx):
+    """ThreadCommon (thread.py, the real class; `nxslib.thread.threading` rebound to the prelude's SimEvent /
+    SimThread): every sequence of thread_start / thread_stop up to length 5 from every parked worker state
+    (no handle, created, each line of _thread_loop, done), random long histories (queries, parking, scripted
+    flag, _thread_loop run sequentially, failing callbacks), and the constructor on good and bad arguments;
+    the view (flag, script, handle state / name / joins / target, recorded calls) is compared after every call."""
+    import itertools
+    import types
+    import nxslib.thread as thm
+    P = prelude_py
+    out = []
+    BOUND = pyl.RawSx("(bi $bound _thread_loop)")
+
+    def canon(v, w):
+        if isinstance(v, types.MethodType):
+            if v.__self__ is w and v.__func__ is thm.ThreadCommon._thread_loop:
+                return BOUND
+            raise pyl.NotRepresentable("method")
+        if isinstance(v, list):
+            return [canon(x, w) for x in v]
+        return v
+
+    def cb_sx(cb):
+        return "N" if cb is None else pyl.sx(cb)
+
+    def build(has_init, has_final, name):
+        return thm.ThreadCommon(P.SimCb(), P.SimCb() if has_init else None, P.SimCb() if has_final else None, name)
+
+    def history(has_init, has_final, name, ops, label):
+        def run():
+            w = build(has_init, has_final, name)
+            return canon(P.worker_run(w, copy.deepcopy(ops)), w)
+        w0 = build(has_init, has_final, name)
+        wsx = pyl.RawSx("(o ThreadCommon (_target %s) (_init %s) (_final %s) (_thrd N) (_stop_flag %s) (_name %s))" % (
+            cb_sx(w0._target), cb_sx(w0._init), cb_sx(w0._final), pyl.sx(w0._stop_flag), pyl.sx(name)))
+        out.append((pyl.fn_cmd("worker_run", [wsx, ops], fuel=120), pyl.impl_result(run), label))
+
+    saved = thm.threading
+    thm.threading = types.SimpleNamespace(Event=P.SimEvent, Thread=P.SimThread)
+    try:
+        # 1. exhaustive: start/stop sequences up to length 5 from every parked state
+        parks = [[]] + [[["start"], ["park", st]] for st in ["created", "init", "test", "target", "final", "done"]]
+        for pre in parks:
+            for k in range(1, 6):
+                for seq in itertools.product(["start", "stop"], repeat=k):
+                    history(True, True, "w", pre + [[x] for x in seq], "start/stop sequences")
+        # 2. random long histories
+        for _ in range(n):
+            ops = []
+            for _ in range(rng.randrange(5, 40)):
+                r = rng.random()
+                if r < 0.22:
+                    ops.append(["start"])
+                elif r < 0.44:
+                    ops.append(["stop"])
+                elif r < 0.52:
+                    ops.append(["alive"])
+                elif r < 0.57:
+                    ops.append([rng.choice(["stop_set", "is_set", "clear"])])
+                elif r < 0.72:
+                    ops.append(["park", rng.choice(["created", "init", "test", "target", "final", "done"])])
+                elif r < 0.84:
+                    k = rng.randrange(0, 12)
+                    tail = rng.choice([[True], [True, False, True], [True] + [rng.random() < 0.5 for _ in range(3)]])
+                    ops.append(["script", [False] * k + tail])
+                    if rng.random() < 0.8:
+                        ops.append(["loop"])
+                elif r < 0.92:
+                    ops.append(["fail", rng.randrange(3), rng.randrange(0, 4)])
+                else:
+                    ops.append(["stop_set"])
+                    ops.append(["loop"])          # exhausted script: the flag itself answers
+            history(rng.random() < 0.7, rng.random() < 0.7, rng.choice([None, "w", "nxs-thread"]), ops, "worker history")
+        # 3. the constructor and its assertions
+        for _ in range(max(8, n // 2)):
+            args = [rng.choice([P.SimCb()] * 16 + [None, 5, "x", 0]),
+                    rng.choice([None, P.SimCb()] * 8 + [0, 7, "", "f"]),
+                    rng.choice([None, P.SimCb()] * 8 + [0, 7, "", "f"]),
+                    rng.choice([None, "w"])]
+            out.append((pyl.fn_cmd("worker_new", args, fuel=20), pyl.impl_result(P.worker_new, *copy.deepcopy(args)),
+                        "ThreadCommon()"))
+    finally:
+        thm.threading = saved
+    return out
+# ---- END pl15 ----
+
+
+# ---------------------------------------------------------------- pl14: receive thread / stream path (begin)
+def g_recvpath(rng, n, ctx):
+    """CommHandler._recv_thread called repeatedly over a scripted link (valid frames of every id, stream
+    frames, ACKs, with and without a device description, noise, damaged frames, any chunking): the content
+    of the two queues; CommHandler.stream_data over scripted stream queues (valid payloads, empty payload,
+    flags only, truncated, unknown channel, a frame that is not a stream frame, time-out)."""
+    from nxslib.comm import CommHandler
+    from nxslib.proto import iparse
+    from nxslib.proto.parse import Parser
+    from nxslib.proto.iframe import DParseFrame, EParseId
+    out = []
+    sf = ctx.sf
+    for _ in range(n):
+        stream = b""
+        for _ in range(rng.randrange(0, 7)):
+            r = rng.random()
+            fid = rng.choice([0, 1, 2, 3, 4, 5, 6, 7, 8, 1, 1, 4, 4])
+            fr = sf.frame_create(fid, rb(rng, rng.randrange(0, 9)))
+            if r < 0.12:
+                fr = bytearray(fr)
+                fr[rng.randrange(len(fr))] ^= 1 << rng.randrange(8)
+                fr = bytes(fr)
+            elif r < 0.24:
+                fr = rb(rng, rng.randrange(1, 5)) + fr
+            elif r < 0.3:
+                fr = bytes([0x55] * rng.randrange(1, 3)) + fr
+            stream += fr
+        if rng.random() < 0.2:
+            stream = stream[:rng.randrange(0, len(stream) + 1)]
+        chunks = []
+        i = 0
+        while i < len(stream):
+            k = rng.choice([1, 1, 2, 3, 5, 8, 64])
+            chunks.append(stream[i:i + k])
+            i += k
+            if rng.random() < 0.15:
+                chunks.append(b"")
+        prev = rng.choice([b"", b"", b"\x55", rb(rng, 2)])
+        calls = rng.randrange(1, 12)
+        dev = mkdev(rng, rng.randrange(0, 3)) if rng.random() < 0.5 else None
+        q0 = [DParseFrame(fid=EParseId.ACK, data=bytes(4))] if rng.random() < 0.2 else []
+        csx = pyl.RawSx("(o CommHandler (_prev_read %s) (_intf (o ScriptedIntf (chunks %s))) (_parse %s) (_dev %s) "
+                        "(_q (o ScriptQueue (items %s))) (_q_stream (o ScriptQueue (items (l)))))" % (
+                            pyl.sx(prev), pyl.sx(list(chunks)), ctx.pa_sx.text,
+                            "N" if dev is None else pyl.sx(nolock(dev)), pyl.sx(list(q0))))
+
+        def run(prev, chunks, calls, dev=dev, q0=q0):
+            c = CommHandler(prelude_py.ScriptedIntf(list(chunks)), Parser())
+            c._prev_read = prev
+            c._dev = None if dev is None else relock(dev)
+            c._q = prelude_py.ScriptQueue(list(q0))
+            c._q_stream = prelude_py.ScriptQueue([])
+            return prelude_py.recv_run(c, calls)
+
+        out.append((pyl.fn_cmd("recv_run", [csx, calls], fuel=400), pyl.impl_result(run, prev, chunks, calls),
+                    "_recv_thread"))
+    for _ in range(n):
+        k = rng.randrange(1, 5)
+        dev = mkstream_dev(rng, k) if rng.random() < 0.93 else None
+        items = []
+        for _ in range(rng.randrange(0, 5)):
+            r = rng.random()
+            if dev is None or r < 0.1:
+                items.append(rng.choice([None, DParseFrame(fid=EParseId.STREAM, data=b"\x00")]))
+                continue
+            payload = bytes([rng.choice([0, 1, 2, 3, 255])])
+            for _ in range(rng.randrange(0, 4)):
+                c = dev.channel_get(rng.randrange(k))
+                it = iparse.dsfmt_get(c.data.dtype)
+                body = rb(rng, it.slen * c.data.vdim)
+                if c.data.dtype in (18, 19) and rng.random() < 0.8:
+                    body = bytes(rng.choice(b"abcxyz \x00") for _ in range(len(body)))
+                payload += bytes([c.data.chan]) + body + rb(rng, c.data.mlen)
+            r = rng.random()
+            if r < 0.12:
+                payload = payload[:-1]               # truncated / empty payload
+            elif r < 0.2:
+                payload += bytes([k + rng.randrange(0, 3)])     # unknown channel (or a cut sample)
+            elif r < 0.26:
+                payload = payload[:1]                # flags only
+            elif r < 0.3:
+                payload = b""
+            fid = rng.choice([EParseId.STREAM] * 12 + [EParseId.ACK, EParseId.CMNINFO])
+            items.append(DParseFrame(fid=fid, data=payload))
+        calls = rng.randrange(1, 6)
+        csx = pyl.RawSx("(o CommHandler (_parse %s) (_dev %s) (_q_stream (o ScriptQueue (items %s))))" % (
+            ctx.pa_sx.text, "N" if dev is None else pyl.sx(nolock(dev)), pyl.sx(list(items))))
+
+        def run2(items, calls, dev=dev):
+            c = CommHandler(prelude_py.ScriptedIntf([]), Parser())
+            c._dev = None if dev is None else relock(dev)
+            c._q_stream = prelude_py.ScriptQueue(list(items))
+            return prelude_py.stream_data_run(c, calls)
+
+        out.append((pyl.fn_cmd("stream_data_run", [csx, calls], fuel=200), pyl.impl_result(run2, items, calls),
+                    "stream_data"))
+    return out
+
+
+def g_streamthread(rng, n, ctx):
+    """NxscopeHandler._stream_thread called repeatedly over a scripted stream-frame queue, the subscriber
+    queues being the SubQueue stub: zero to several subscribers per channel, channels enabled or not in the
+    client's view, frames with no samples / samples of several channels / the overflow flag / damaged
+    payloads / time-outs.  Label `(real queues)`: CPython runs the same history with REAL queue.Queue objects
+    obtained from the real stream_sub (the application's handles, aliased with nx._sub_q) and the content of
+    those handles is compared with the interpreter's stub queues inside nx._sub_q."""
+    import struct
+    import nxslib.nxscope as nxm
+    from nxslib.proto import iparse
+    from nxslib.proto.parse import Parser
+    from nxslib.proto.iframe import DParseFrame, EParseId
+    out = []
+    for _ in range(n):
+        k = rng.randrange(1, 5)
+        dev = mkstream_dev(rng, k)
+        if rng.random() < 0.05:
+            dev._channels[rng.randrange(k)].data.__dict__["chan"] = k + rng.randrange(0, 2)   # a wrong channel number
+        en = [rng.random() < 0.75 for _ in range(k)]
+        subs = [rng.choice([0, 1, 1, 2, 3]) for _ in range(k)]
+        items = []
+        for _ in range(rng.randrange(1, 5)):
+            if rng.random() < 0.1:
+                items.append(None)
+                continue
+            payload = bytes([rng.choice([0, 1, 0, 1, 2, 3, 255])])
+            for _ in range(rng.randrange(0, 5)):
+                c = dev._channels[rng.randrange(k)]
+                it = iparse.dsfmt_get(c.data.dtype)
+                body = rb(rng, it.slen * c.data.vdim)
+                if c.data.dtype in (18, 19):
+                    body = bytes(rng.choice(b"abcxyz \x00") for _ in range(len(body)))
+                payload += bytes([dev._channels.index(c)]) + body + rb(rng, c.data.mlen)
+            r = rng.random()
+            if r < 0.06:
+                payload = payload[:-1]
+            elif r < 0.1:
+                payload += bytes([k + 1])
+            fid = EParseId.STREAM if rng.random() < 0.97 else EParseId.ACK
+            items.append(DParseFrame(fid=fid, data=payload))
+        calls = rng.randrange(1, 6)
+        real = rng.random() < 0.35
+
+        def build(real=False):
+            nx = nxm.NxscopeHandler(prelude_py.LogIntf(), Parser())
+            nx._thrd = prelude_py.FakeThread()
+            nx._comm._thrd = prelude_py.FakeThread()
+            nx._comm._dev = relock(dev)
+            nx._comm._channels_init(nx._comm._dev)
+            nx._comm._channels.en_now = list(en)
+            nx._comm._q_stream = prelude_py.ScriptQueue(list(items))
+            nx._sub_q = [[] for _ in range(k)]
+            handles = []
+            serial = 0
+            for ch in range(k):
+                row = []
+                for _ in range(subs[ch]):
+                    if real:
+                        q = nx.stream_sub(ch)            # a real queue.Queue, aliased with nx._sub_q[ch][-1]
+                        assert q is nx._sub_q[ch][-1]
+                        q.serial = serial
+                    else:
+                        q = prelude_py.SubQueue(serial)
+                        nx._sub_q[ch].append(q)
+                    row.append(q)
+                    serial += 1
+                handles.append(row)
+            return nx, handles
+
+        def run(calls, real=real):
+            nx, handles = build(real)
+            try:
+                if real:
+                    views = []
+                    for _ in range(calls):
+                        try:
+                            nx._stream_thread()
+                        except AssertionError:
+                            views.append("AssertionError")
+                        except struct.error:
+                            views.append("struct.error")
+                        except IndexError:
+                            views.append("IndexError")
+                        # what the application sees in the queues it holds
+                        views.append(copy.deepcopy(
+                            [[[[h.serial, list(h.queue)] for h in row] for row in handles], nx._ovf_cntr,
+                             nx._comm._q_stream.items]))
+                    return views
+                views = prelude_py.stream_thread_run(nx, calls)
+                # the queues the application holds are those inside nx._sub_q
+                assert all(h is q for hr, qr in zip(handles, nx._sub_q) for h, q in zip(hr, qr))
+                assert views[-1][0] == [[[h.serial, h.items] for h in row] for row in handles]
+                return views
+            finally:
+                nx._connected = False
+                nx._comm._started = False
+
+        n0, _h = build(False)
+        csx = "(o CommHandler (_parse %s) (_dev %s) (_q_stream %s) (_channels %s))" % (
+            ctx.pa_sx.text, pyl.sx(nolock(dev)), pyl.sx(n0._comm._q_stream), pyl.sx(n0._comm._channels))
+        nsx = pyl.RawSx("(o NxscopeHandler (_connected T) (_comm %s) (_sub_q %s) (_stream_started T) (_ovf_cntr i%d))" % (
+            csx, pyl.sx(n0._sub_q), 0))
+        n0._connected = False
+        out.append((pyl.fn_cmd("stream_thread_run", [nsx, calls], fuel=300), pyl.impl_result(run, calls),
+                    "_stream_thread(real queues)" if real else "_stream_thread"))
+    return out
+# ---------------------------------------------------------------- pl14 (end)
+
+
 GROUPS = {
+    "worker": g_worker,
+    "recvpath": g_recvpath,
+    "streamthread": g_streamthread,
     "lifecycle": g_lifecycle,
     "handshake": g_handshake,
     "config": g_config,
